@@ -82,8 +82,25 @@ class Gen:
         self.n += 1
         return f"{prefix}{self.n}"
 
+    MAPS = [
+        [dict(identifier=1, bank_range=(0x00, 0x6F), addr_range=(0x8000, 0xFFFF), mask=0x8000, mirror_bank_range=(0x80, 0xCF)),
+         dict(identifier=2, bank_range=(0x7E, 0x7F), addr_range=(0, 0xFFFF), mask=0x10000, writable=1)],
+        [dict(identifier=1, bank_range=(0xC0, 0xFF), addr_range=(0, 0xFFFF), mask=0x10000, mirror_bank_range=(0x40, 0x7D)),
+         dict(identifier=2, bank_range=(0x7E, 0x7F), addr_range=(0, 0xFFFF), mask=0x10000, writable=1)],
+        [dict(identifier=1, bank_range=(0x10, 0x1F), addr_range=(0x8000, 0xFFFF), mask=0x8000, mirror_bank_range=(0x90, 0x9F)),
+         dict(identifier=2, bank_range=(0x20, 0x2F), addr_range=(0, 0xFFFF), mask=0x10000),
+         dict(identifier=3, bank_range=(0x7E, 0x7F), addr_range=(0, 0xFFFF), mask=0x10000, writable=1)],
+    ]
+
     def rom_addr(self) -> int:
         r = self.rng
+        if self.rom == "map":
+            m = r.choice([x for x in self.map_cfg if not x.get("writable")])
+            rng_ = r.choice([m["bank_range"]] + ([m["mirror_bank_range"]] if m.get("mirror_bank_range") else []))
+            bank = r.choice([rng_[0], rng_[1], r.randint(*rng_)])
+            lo = m["addr_range"][0]
+            low = r.choice([lo, lo + 0x1000, 0xFFF0, 0xFFFB, 0xFFFE, r.randrange(lo, 0xFF00)])
+            return (bank << 16) | low
         if self.rom == "high":
             bank = r.choice([0xC0, 0xC1, 0x40, 0xFF, r.randint(0xC0, 0xFF)])
             low = r.choice([0x0000, 0x8000, 0xFFF0, 0xFFFB, r.randrange(0, 0xFF00)])
@@ -95,7 +112,11 @@ class Gen:
     def program(self) -> dict:
         self.budget = self.rng.randint(*self.size)
         root = Frame("root", None)
-        body = [{"k": "org", "e": E(self.rom_addr())}]
+        body = []
+        if self.rom == "map":
+            self.map_cfg = self.rng.choice(self.MAPS)
+            body += [{"k": "map", "args": dict(m)} for m in self.map_cfg]
+        body += [{"k": "org", "e": E(self.rom_addr())}]
         body += self.body(root, 0, self.budget)
         return {"prog": body, "files": dict(self.files), "tables": dict(self.tables), "rom": self.rom}
 
@@ -241,7 +262,7 @@ class Gen:
         if kind == "reloc":
             if fr.in_macro or fr.in_loop:
                 return None
-            target = r.choice([0x7E0000 + r.randrange(0, 0xF000), 0x7F8000, self.rom_addr()])
+            target = r.choice([0x7E0000 + r.randrange(0, 0xF000), 0x7F8000, self.rom_addr(), self.rom_addr()])
             return [{"k": "reloc", "e": E(target)}]
         if kind == "incbin":
             if fr.in_macro or fr.in_loop:
